@@ -339,6 +339,37 @@ theorem validate_ok (instrs : List Instr) (bases : List Basis) (ids : List (List
               · rename_i hq
                 exact ⟨g, hgg, by simpa using hq⟩
 
+/-- **D13**: in an accepted grouping a decomposition with two members consists of one-qubit placeholders only (a two-qubit
+placeholder is a decomposition of its own) -/
+theorem validate_pairs_one_qubit (instrs : List Instr) (bases : List Basis) (ids : List (List Nat))
+    (h : validateDecomp instrs bases ids = .ok ()) :
+    ∀ d ∈ ids, d.length = 2 → ∀ gid ∈ d, ∀ g, instrs[gid]? = some g → isQpd2 g = false := by
+  unfold validateDecomp at h
+  split at h
+  · cases h
+  · rename_i hf
+    rw [forM'_ok] at hf
+    intro d hd hlen2 gid hg g hgg
+    have hd' := hf d hd
+    unfold checkDecomp at hd'
+    split at hd'
+    · cases hd'
+    · split at hd'
+      · cases hd'
+      · split at hd'
+        · cases hd'
+        · rw [forM'_ok] at hd'
+          have := hd' gid hg
+          unfold checkGate at this
+          rw [hgg] at this
+          simp only [hlen2, beq_self_eq_true, Bool.true_and] at this
+          split at this
+          · cases this
+          · split at this
+            · cases this
+            · rename_i h2
+              simpa using h2
+
 /-- an accepted map id is in range for the gate's basis -/
 theorem setBasisId_ok (bases : List Basis) (g g' : Instr) (m : Int) (h : setBasisId bases g m = .ok g') :
     ∃ b, basisOfInstr bases g = some b ∧ 0 ≤ m ∧ m < b.maps.length ∧ g' = { g with basisId := some m.toNat } := by
